@@ -3878,6 +3878,9 @@ class Qube(object):
 
         both_masked = (self._mask_ & arg._mask_)
         one_masked  = (self._mask_ ^ arg._mask_)
+        if np.shape(one_masked) and np.shape(one_masked) != np.shape(compare):
+            both_masked = np.broadcast_to(both_masked, np.shape(compare))
+            one_masked  = np.broadcast_to(one_masked, np.shape(compare))
 
         # Return a Python bool if the shape is ()
         if np.isscalar(compare):
@@ -3916,6 +3919,10 @@ class Qube(object):
 
         both_masked = (self._mask_ & arg._mask_)
         one_masked  = (self._mask_ ^ arg._mask_)
+
+        if np.shape(one_masked) and np.shape(one_masked) != np.shape(compare):
+            both_masked = np.broadcast_to(both_masked, np.shape(compare))
+            one_masked  = np.broadcast_to(one_masked, np.shape(compare))
 
         # Compare units for compatibility
         if not Units.can_match(self._units_, arg._units_):
